@@ -307,7 +307,8 @@ func (d *Decoder) readUntypedList(tag byte) (interface{}, error) {
 			aryValue = reflect.Append(aryValue, EnsureRawValue(it))
 			holder.change(aryValue)
 		} else {
-			ary[j] = it
+			// a back-reference arrives as a reflect.Value: store what it refers to
+			ary[j], _ = EnsureInterface(it, nil)
 		}
 	}
 
